@@ -265,6 +265,16 @@ def _child_main(tool, argv, cwd, fault, knobs, logpath, count_deep):
 
     # --- run ----------------------------------------------------------------------------------
     entry = cl.signals_to_torch_feat_dir if tool == "torch" else cl.compute_feats_from_kaldi_tables
+    # a long-lived process: earlier invocations of the same tool in this process, each optionally followed by
+    # rewriting files (e.g. the configuration file the next invocation will name again)
+    for pre in knobs.get("pre_runs", []):
+        try:
+            entry(list(pre["argv"]))
+        except BaseException:  # noqa: B902 - only the main invocation is judged
+            pass
+        for path, text in pre.get("rewrite", {}).items():
+            with open(path, "w") as f:
+                f.write(text)
     code = None
     soft = False
     sys.settrace(tr.global_trace)
